@@ -2,7 +2,8 @@
 M-DB: the hypotheses of the global-invariant theorems (Gsu/Proofs/DbInv*.lean, Props C06 / C03 /
 C16), as executable checks, and the driver step that CHECKS them on every replayed operation:
 `OpOK` (a table has a key, a written row carries one key per index of its table, an index is
-built only if it is a key of the rows) and freshness of record offsets (append-only store).
+built only if it is a key of the rows) and freshness of the offsets of the records that
+successful writes add (append-only store).
 An operation of a real trace that violates a hypothesis makes the driver answer `!hyp-…`, which
 disagrees with every implementation output — so the correspondence run also shows that the
 theorems' hypotheses hold on every history the suites generate. Core only.
@@ -36,14 +37,21 @@ def Op.newRow : Op → Option Row
   | .upd _ _ _ row => some row
   | _ => none
 
-/-- the offsets of the records written so far, after `op` -/
-def usedAfter (used : List Off) (op : Op) : List Off :=
+/-- the record a SUCCESSFUL write adds to the database (a failed Output / Update adds nothing; the
+suites pass offset 0 for it) -/
+def okRow (s : State) (op : Op) : Option Row :=
   match op.newRow with
+  | some row => if (step s op).2 = "ok" then some row else none
+  | none => none
+
+/-- the offsets of the records written so far, after `op` -/
+def usedAfter (used : List Off) (s : State) (op : Op) : List Off :=
+  match okRow s op with
   | some row => row.off :: used
   | none => used
 
-def freshb (used : List Off) (op : Op) : Bool :=
-  match op.newRow with
+def freshb (used : List Off) (s : State) (op : Op) : Bool :=
+  match okRow s op with
   | some row => !used.contains row.off
   | none => true
 
@@ -62,8 +70,8 @@ def driveStepOK (ds : DState) (l : List String) : DState × String :=
   | _ => match parseOp l with
     | some op =>
       if !opOKb ds.s op then (ds, "!hyp-opok")
-      else if !freshb ds.used op then (ds, "!hyp-fresh")
-      else (⟨(step ds.s op).1, usedAfter ds.used op⟩, (step ds.s op).2)
+      else if !freshb ds.used ds.s op then (ds, "!hyp-fresh")
+      else (⟨(step ds.s op).1, usedAfter ds.used ds.s op⟩, (step ds.s op).2)
     | none => (ds, observe ds.s l)
 
 end Gsu.Db
